@@ -8,8 +8,7 @@
 //!
 //! Excluded by construction (documented, program-logic panics): out-of-range indices of
 //! `VolatileArrayRef::{ref_at,load,store}`, `unchecked_*` address helpers, `checked_align_up`
-//! with a non power of two, `AtomicBitmap::enlarge` overflowing usize, zero-sized element copies
-//! (owned by C18).
+//! with a non power of two, `AtomicBitmap::enlarge` overflowing usize.
 
 use crate::common::*;
 use crate::engine::*;
